@@ -306,6 +306,73 @@ class Program:
             raise AnalysisError(f'anchor module {q} not found')
         return m
 
+    def mutated_globals(self):
+        """{(module name, global name): [(function short, node)]} -- module-level names that some function mutates in
+        place (item/slice store, mutating method, augmented assignment) or rebinds through `global`.
+        Such a name is STATE shared by all calls in the process, not a constant."""
+        if getattr(self, '_mutglob', None) is not None:
+            return self._mutglob
+        MUT = {'append', 'extend', 'insert', 'update', 'pop', 'remove', 'clear', 'sort', 'reverse', 'setdefault',
+               'popitem', 'add', 'discard', 'fill', 'resize', 'appendleft', 'popleft'}
+        out = {}
+        for fi in self.functions.values():
+            if isinstance(fi.node, ast.Lambda):
+                continue
+            m = fi.module
+            local = set(fi.all_params())
+            a = fi.node.args
+            if a.vararg:
+                local.add(a.vararg.arg)
+            if a.kwarg:
+                local.add(a.kwarg.arg)
+            declared_global = set()
+            for n in ast.walk(fi.node):
+                if isinstance(n, ast.Global):
+                    declared_global.update(n.names)
+            for n in ast.walk(fi.node):
+                if isinstance(n, ast.Name) and isinstance(n.ctx, ast.Store) and n.id not in declared_global:
+                    local.add(n.id)
+            p = fi.parent
+            while p is not None:
+                local.update(p.all_params())
+                for n in ast.walk(p.node):
+                    if isinstance(n, ast.Name) and isinstance(n.ctx, ast.Store):
+                        local.add(n.id)
+                p = p.parent
+
+            def target_global(e):
+                """(module, name) if expression e denotes a module-level variable of the package"""
+                if isinstance(e, ast.Name) and e.id not in local:
+                    if e.id in m.globals:
+                        return (m.name, e.id)
+                    r = self.resolve_import(m, e.id)
+                    if isinstance(r, tuple) and r[0] == 'global':
+                        return (r[1].name, r[2])
+                if isinstance(e, ast.Attribute) and isinstance(e.value, ast.Name) and e.value.id not in local:
+                    r = self.resolve_import(m, e.value.id)
+                    if isinstance(r, ModuleInfo) and e.attr in r.globals:
+                        return (r.name, e.attr)
+                return None
+            for n in ast.walk(fi.node):
+                hit = None
+                if isinstance(n, ast.Subscript) and isinstance(n.ctx, (ast.Store, ast.Del)):
+                    hit = target_global(n.value)
+                elif isinstance(n, ast.Call) and isinstance(n.func, ast.Attribute) and n.func.attr in MUT:
+                    hit = target_global(n.func.value)
+                elif isinstance(n, ast.AugAssign):
+                    t = n.target
+                    hit = target_global(t if not isinstance(t, ast.Subscript) else t.value)
+                    if isinstance(t, ast.Name) and t.id not in declared_global:
+                        hit = None
+                elif isinstance(n, ast.Name) and isinstance(n.ctx, ast.Store) and n.id in declared_global and n.id in m.globals:
+                    hit = (m.name, n.id)
+                elif isinstance(n, ast.Attribute) and isinstance(n.ctx, (ast.Store, ast.Del)):
+                    hit = target_global(n)
+                if hit is not None:
+                    out.setdefault(hit, []).append((fi.short, n))
+        self._mutglob = out
+        return out
+
     def stats(self):
         ncalls = 0
         for m in self.modules.values():
